@@ -4,7 +4,8 @@ specs/Helpers.tla defines, from the documentation, the piecewise-linear variable
 transformed variable / plain function (exact rationals, "None" thresholds as flags), the Box-Cox
 transform (definition, accurate form, Lipschitz constant in the exponent), the normal, lognormal,
 uniform, triangular densities and the logistic distribution function, the regression
-log-likelihood, segmented parameters and the nested-logit correlation matrix.  For each family a
+log-likelihood, segmented parameters (values mapped to categories, several values possibly sharing one category,
+one shift per non-reference category) and the nested-logit correlation matrix.  For each family a
 generator builds cases step by step; TLC explores all of them, checks the family's invariants on
 the model (sum of the variables = clipped distance, formula = function, exact mass of the
 piecewise-linear densities, additivity of segment shifts, symmetric correlation with unit
@@ -86,6 +87,7 @@ def body(chk: check.Check):
     samples = {}
     oracle_gap = 0.0
     quads = {}
+    seg_kinds: dict = {}
     for fam, (grouper, fn, chunk) in REPLAY.items():
         recs = emitted[fam]
         items = grouper(recs)
@@ -98,14 +100,23 @@ def body(chk: check.Check):
                                                ('thr', 'betas', 'x', 'l', 'l2', 'pair', 'dist', 'p', 'y', 'm', 's', 'segs', 'row',
                                                 'ref', 'prefix', 'order', 'nests', 'top', 'names')))))
         for item, (st, val) in zip(items, results):
-            if st == 'ok' and val.get('sample') and fam not in samples and (fam != 'boxcox' or not item[0]['pair']):
+            if st == 'ok' and val.get('sample') and fam not in samples and (fam != 'boxcox' or not item[0]['pair']) and (fam != 'segmentation' or val.get('many_to_one')):
                 samples[fam] = val['sample']
             if st == 'ok' and fam == 'boxcox':
                 oracle_gap = max(oracle_gap, val['oracle_gap'])
+            if st == 'ok' and fam == 'segmentation':
+                r0 = item[0]
+                kind = val['kind']
+                seg_kinds[kind] = seg_kinds.get(kind, 0) + 1
+                seg_kinds['reference not given'] = seg_kinds.get('reference not given', 0) + (not all(s_['refcat'] for s_ in r0['segs']))
             if st == 'ok' and fam == 'density' and val.get('quad') is not None:
                 r0 = item[0]
                 quads.setdefault(r0['dist'], []).append(abs(val['quad'] - 1.0))
     chk.extra['families'] = extra
+    chk.extra['segmentation_configurations_replayed'] = seg_kinds
+    if not all(any(k.startswith(p) and n for k, n in seg_kinds.items()) for p in
+               ('one category', 'many-to-one, reference', 'many-to-one, a non-reference', 'reference not given')):
+        raise tlc.MachineryError(f'segmentation replay does not cover every kind of mapping: {seg_kinds}')
     chk.extra['boxcox_definition_vs_accurate_form_max_rel_gap'] = oracle_gap
     chk.extra['numeric_mass_max_abs_error'] = {k: max(v) for k, v in quads.items()}
     chk.extra['numeric_mass_parameter_sets'] = {k: len(v) for k, v in quads.items()}
@@ -159,6 +170,23 @@ def body(chk: check.Check):
             e['value'] = [e['value'][0] + e['value'][1], e['value'][1]]  # + 1
     st, val = rt.forked(lambda: helpers.sg_replay(g))
     chk.control('segmentation: expected values shifted by one', st == 'ok' and any(m['key'] == 'segmentation:value' for m in val['mism']))
+    # (4) many-to-one mappings: the model with one shift per VALUE, and the replay against a segmentation that keeps one value
+    #     per category
+    res = tlc.run('MCHelpers', helpers.cfg(inst, 'segmentation', mutation='shift-per-value', emit=False),
+                  extra_modules={'MCHelpers': mod}, workers=4, timeout=600, heap='2g')
+    chk.control('Helpers with Mutation = shift-per-value (the shift follows the value, not its category): TLC must report a '
+                'segmentation invariant', res.violated in ('SgSameCategory', 'SgAdditive', 'SgReferenceSegment'), f'violated={res.violated}')
+    sg_items = helpers.sg_groups(emitted['segmentation'])
+    shared = next(g for g in sg_items if len(g[0]['segs']) == 1 and g[0]['segs'][0]['refcat'] and
+                  any(list(g[0]['segs'][0]['cats']).count(q) > 1 and q != g[0]['segs'][0]['refcat'] for q in g[0]['segs'][0]['cats']))
+    st, val = rt.forked(lambda: helpers.sg_replay(shared, patch=helpers.buggy_segmentation_patch))
+    chk.control('segmentation that keeps one value per category (two values share a non-reference category): value clause',
+                st == 'ok' and any(m['key'] == 'segmentation:value' for m in val['mism']),
+                f'mapping={dict(zip(shared[0]["segs"][0]["vals"], shared[0]["segs"][0]["cats"]))}')
+    plain = next(g for g in sg_items if not helpers.sg_many_to_one(g[0]['segs']))
+    st, val = rt.forked(lambda: helpers.sg_replay(plain, patch=helpers.buggy_segmentation_patch))
+    if st != 'ok' or val['mism']:
+        raise tlc.MachineryError(f'the one-value-per-category control is not specific to many-to-one mappings: {st} {val}')
     dsg = copy.deepcopy(next(g for g in helpers.ds_groups(emitted['density']) if g[0]['dist'] == 'triangular'))
     dsg[0]['breaks'][1] = dsg[0]['breaks'][0]  # mode moved onto the lower bound: the trapezoid no longer covers the mass
     st, val = rt.forked(lambda: helpers.ds_replay(dsg))
@@ -172,7 +200,8 @@ def body(chk: check.Check):
         'Box-Cox at x = 0 (the library returns 0 by construction; the documented formula is for x > 0) and at x < 0',
         'piecewise_as_variable with only two thresholds (no slope: the library refuses the empty sum with its own error type)',
         'names of the parameters that piecewise_formula / piecewise_as_variable create when no slope is given',
-        'reference category not given on a second or later segmentation variable',
+        'reference category not given on a second or later segmentation variable; many-to-one mappings in segmentations of three '
+        'variables (thorough tier: the third variable is explored with one category per value only); more than three values per variable',
         'NestsForCrossNestedLogit.correlation (numerical double integral), not part of the property',
     ]
     chk.assumptions += [
